@@ -225,6 +225,12 @@ RetBad(e) ==
           \cup (IF HasDefs \/ (\A T \in Types : O.cnt[T] = cnt0[T] /\ Classes(O, T) <= cls0[T]) THEN {}
                 ELSE {[prop |-> "C06", what |-> "close() of a theory without `!` allocated ids or increased the number of elements"]})
 
+RECURSIVE Prod(_, _, _)
+Prod(O, cols, i) == IF i > Len(cols) THEN 1 ELSE O.cnt[cols[i]] * Prod(O, cols, i + 1)
+RECURSIVE SumOver(_, _)
+SumOver(f, S) == IF S = {} THEN 0 ELSE LET x == CHOOSE x \in S : TRUE IN f[x] + SumOver(f, S \ {x})
+IterBound(O) == SumOver([r \in Rels |-> Prod(O, Arity[r], 1)], Rels) + SumOver([T \in Types |-> O.cnt[T]], Types) + 2
+
 (* ---------- C03 / C07 / C17: histories of one family reach the same model ---------- *)
 \* members of a family assert the same facts and equalities about the same caller-created elements;
 \* their final models must be isomorphic by a map fixing those elements
@@ -262,7 +268,13 @@ Step ==
             /\ famFirst' = IF e.fam = famFirst.fam THEN famFirst ELSE [famFirst EXCEPT !.fam = e.fam, !.set = FALSE]
             /\ UNCHANGED <<chase, gens, cnt0, cls0, lastObs, viol>>
        [] e.ev \in {"panic", "budget"} ->
-            /\ viol' = IF e.ev = "panic" THEN AddViol(e, {[prop |-> "PANIC", what |-> "panic: " \o e.msg]}) ELSE viol
+            \* "budget": the driver gave up after e.obs evaluations of the condition.  Without `!` every
+            \* iteration that does not return adds a tuple or merges two classes, so a model with T possible
+            \* tuples and E elements admits at most T + E + 2 evaluations: more is non-termination (C06)
+            /\ viol' = IF e.ev = "panic" THEN AddViol(e, {[prop |-> "PANIC", what |-> "panic: " \o e.msg]})
+                       ELSE IF ~HasDefs /\ e.obs > IterBound(lastObs.O)
+                            THEN AddViol(e, {[prop |-> "C06", what |-> "close() of a theory without `!` did not terminate within the number of iterations a model of this size admits"]})
+                            ELSE viol
             /\ stats' = IF e.ev = "budget" THEN [stats EXCEPT !.budget = @ + 1] ELSE stats
             /\ UNCHANGED <<ref, prev, eqSince, chase, gens, cnt0, cls0, lastObs, callers, famFirst>>
        [] e.ev = "new" ->
